@@ -16,6 +16,7 @@ import random
 
 import nixio
 
+from ..extract import delshape as _ex
 from ..lib import core, storegen, walk as W
 from ..lib.core import Failure, Disagreement
 from ..lib.storeimpl import Impl, BadOp
@@ -42,6 +43,20 @@ THEOREMS = [
     "Nix.C04.history_delete",
     "Nix.C04.history_frame",
     "Nix.C04.history_delete_exact",
+    "Nix.C04.frame_of_noSharedIds",
+    "Nix.C04.frame_iff_noSharedLinkedIds",
+    "Nix.C04.noSharedIds_init",
+    "Nix.C04.noSharedIds_step",
+    "Nix.C04.noSharedIds_of_reachable",
+    "Nix.C04.frame_of_reachable",
+    "Nix.C04.delitem_follows_source",
+    "Nix.C04.deleteAll_follows_source",
+    "Nix.C04.h5Delete_follows_source",
+    "Nix.C04.containerInfo_follows_source",
+    "Nix.C04.containerInfo_only_source",
+    "Nix.C04.role_clear_follows_source",
+    "Nix.C04.subtree_follows_source",
+    "Nix.C04.source_delete_gone",
 ]
 ASSUMPTIONS = [
     "every reference nixio keeps to an entity is an HDF5 hard link (owning container entry, link-list entry, role "
@@ -76,6 +91,13 @@ MANIFEST = {
                   "finite forest within the model's fuel; HDF5 space reclamation is not modelled. Trusted: Lean "
                   "kernel, standard axioms, the correspondence harness, h5py/HDF5 link semantics.",
 }
+
+
+
+def extract(repo):
+    """(T) statement lists of the deletion code -> NixModel/Generated/DeleteShape.lean"""
+    return _ex.extract(repo)
+
 
 KNOWN_CLASS = "delete-hits-same-id-copy"
 QUERIES = ("get", "has", "len", "list", "role", "dump", "noop", "reset", "fuel_ok")
